@@ -34,6 +34,7 @@ def run(ctx):
     ctx.run("C01.PREDISPATCH", "R-ARITH", par.c01_predispatch_positive)
     ctx.run("C01.DRAIN", "R-ORDER", par.c01_drain)
     ctx.run("C01.STATUS-MODE", "R-SIBLING", par.c01_status_mode)
+    ctx.run("C04.ERROR-SURFACES", "R-FLOW", par.c04_error_surfaces)
     ctx.run("C01.CALLBACK-SIBLINGS", "R-SIBLING", par.c01_callback_siblings)
     ctx.run("C01.REDUCE", "R-DUAL", par.c01_reduce)
     ctx.run("C04.RESET", "R-RESET", par.c04_reset)
